@@ -142,6 +142,10 @@ impl VelocityControl {
     /// and the given velocity.  If the limit would be exceeded, the given velocity
     /// is not inserted and false is returned.
     pub fn insert(&mut self, current_sec: u64, velocity_msat: u64) -> bool {
+        // A caller may have read the clock before it took the lock that protects this control,
+        // so the time can be earlier than that of the previous call.  Never go backwards:
+        // the subtraction below would wrap and clear every bucket.
+        let current_sec = core::cmp::max(current_sec, self.start_sec);
         let nshift = (current_sec - self.start_sec) / self.bucket_interval as u64;
         let len = self.buckets.len();
         let nshift = min(len, nshift as usize);
